@@ -40,6 +40,34 @@ def excluded_classes(mod, node, stop, oname):
     return ex
 
 
+def d1b_cobs_parts_stay_real(ctx, obs):
+    """CObs arithmetic: a part of the result (`self.real <op> other`) is combined with the operand AS A WHOLE only where the operand is known to
+    have no real / imaginary parts of its own (plain int / float).  For an operand with parts (complex, numpy complex, CObs with a zero
+    imaginary part) the whole-operand form multiplies an Obs by a complex and the parts of the result are CObs themselves - not a complex
+    observable of the documented form."""
+    rule = 'C04-D1'
+    n = 0
+    for name, m in obs.methods('CObs'):
+        if len(m.args.args) < 2 or not name.startswith('__'):
+            continue
+        on = m.args.args[1].arg
+        for r in statements(m):
+            if not (isinstance(r, ast.Return) and isinstance(r.value, ast.Call) and call_name(r.value) == 'CObs'):
+                continue
+            bare = [b for a_ in r.value.args for b in ast.walk(a_) if isinstance(b, ast.BinOp) and any(isinstance(x, ast.Name) and x.id == on for x in (b.left, b.right))]
+            if not bare:
+                continue
+            n += 1
+            fls = [unparse(t).replace('"', "'") for t in established_false(obs, m, r)]
+            pos = [unparse(t) for t, pol in guards_of(obs, r, stop=m) if pol]
+            excl = any("hasattr(%s, 'real')" % on in t and "hasattr(%s, 'imag')" % on in t and ' or ' not in t for t in fls) or any(
+                t.startswith('isinstance(%s, (int, float' % on) or t in ('isinstance(%s, int)' % on, 'isinstance(%s, float)' % on) for t in pos)
+            ctx.check(rule, 'obs.py:CObs.%s#whole-operand-branch' % name, excl, 'the whole-operand form `%s` is reached only for operands without real / imaginary parts' % unparse(bare[0]),
+                      '`%s` is reached for operands that have real and imaginary parts (known false on the path: %s): a complex number with zero imaginary part (2+0j, np.complex128(3)) '
+                      'or a CObs with a plain 0 imaginary part gives a CObs whose parts are CObs' % (unparse(r.value)[:70], fls), obs.loc(r))
+    ctx.floor('C04-D1 whole-operand branches of CObs arithmetic', n, 4)
+
+
 def d1_closure(ctx, obs):
     rule = 'C04-D1'
     meths = dict(obs.methods('Obs'))
@@ -488,6 +516,7 @@ def run(ctx):
     ctx.not_decided += ['the invariant after arbitrary operation sequences', 'well-formedness of reader outputs for arbitrary files']
     obs = ctx.repo.mod('obs')
     ctx.guarded('C04-D1', 'obs.py:Obs@closure', d1_closure, ctx, obs)
+    ctx.guarded('C04-D1', 'obs.py:CObs@parts', d1b_cobs_parts_stay_real, ctx, obs)
     ctx.guarded('C04-D2', 'package@reweighted', d2_slot_types, ctx)
     ctx.guarded('C04-D3', 'obs.py@validation', d3_validation, ctx)
     ctx.guarded('C04-D3', 'obs.py@idl-stores', d6_idl_stores, ctx, ctx.repo.mod('obs'))
